@@ -10,11 +10,22 @@ Deterministic environment for C12 (concurrent senders never interleave packets).
                  the real FairLock / asyncio.Lock, subclassed only to log call/acq/rel/cancelled with the lock state
   HBackend       the real AsyncIOBackend with wrap_stream_socket/create_tcp_listeners/create_fair_lock redirected
                  to the objects above (public extension points of AsyncBackend)
+Round 6 (several library objects in ONE loop, see c12_multi):
+  OBJ            context variable: the index of the library object on whose behalf the current task runs (None in the
+                 one-object runs); set by the per-object session task, inherited by every task created below it
+  VLoop(fifo_timers=True)   timers that are due at the same virtual tick fire in the order in which they were scheduled
+                 (asyncio's heap leaves ties unspecified): what one object's tasks do then does not depend on which timers of
+                 OTHER objects sit in the heap
+  SharedHBackend ONE backend object for all the objects of a loop; the harness-side bookkeeping (transports to hand out, lock
+                 names, trace) stays per object and is looked up through OBJ
 """
 from __future__ import annotations
 
 import asyncio
+import contextvars
+import heapq
 import socket
+from asyncio import events as _events
 from collections import deque
 from typing import Any, Callable, Iterable
 
@@ -30,16 +41,47 @@ class Deadlock(Exception):
     pass
 
 
+OBJ: contextvars.ContextVar[Any] = contextvars.ContextVar("c12_obj", default=None)
+SHARED: contextvars.ContextVar[Any] = contextvars.ContextVar("c12_shared_backend", default=None)
+
+
+class _OrderedTimer(_events.TimerHandle):
+    """TimerHandle ordered by (when, scheduling order) instead of `when` alone"""
+
+    __slots__ = ["_seq"]
+
+    def __lt__(self, other):  # heapq only uses <
+        if isinstance(other, _OrderedTimer):
+            return (self._when, self._seq) < (other._when, other._seq)
+        return NotImplemented
+
+
 class VLoop(asyncio.SelectorEventLoop):
-    def __init__(self) -> None:
+    def __init__(self, *, fifo_timers: bool = False) -> None:
         super().__init__()
         self._vt = 0.0
         self.turns = 0
         self.deadlocked = False
         self.max_turns = 200000
+        self.fifo_timers = fifo_timers
+        self._timer_seq = 0
 
     def time(self) -> float:
         return self._vt
+
+    def call_at(self, when, callback, *args, context=None):
+        if not self.fifo_timers:
+            return super().call_at(when, callback, *args, context=context)
+        # BaseEventLoop.call_at with a handle that breaks ties by scheduling order
+        if when is None:
+            raise TypeError("when cannot be None")
+        self._check_closed()
+        timer = _OrderedTimer(when, callback, args, self, context)
+        self._timer_seq += 1
+        timer._seq = self._timer_seq
+        heapq.heappush(self._scheduled, timer)
+        timer._scheduled = True
+        return timer
 
     def _run_once(self) -> None:
         self.turns += 1
@@ -75,11 +117,12 @@ def _drain(loop: VLoop) -> None:
         t._log_destroy_pending = False  # type: ignore[attr-defined]
 
 
-def run(main: Callable[[], Any], trace: "Trace | None" = None) -> tuple[Any, VLoop]:
+def run(main: Callable[[], Any], trace: "Trace | None" = None, *, fifo_timers: bool = False,
+        traces: "list[Trace] | None" = None) -> tuple[Any, VLoop]:
     """run `main()` (a coroutine function) to completion on a fresh virtual loop"""
     from sniffio import thread_local
 
-    loop = VLoop()
+    loop = VLoop(fifo_timers=fifo_timers)
     old, thread_local.name = thread_local.name, "asyncio"
     try:
         asyncio.set_event_loop(loop)
@@ -94,6 +137,8 @@ def run(main: Callable[[], Any], trace: "Trace | None" = None) -> tuple[Any, VLo
         finally:
             if trace is not None:
                 trace.enabled = False
+            for t_ in traces or ():
+                t_.enabled = False
             dl = loop.deadlocked
             _drain(loop)
             loop.deadlocked = dl
@@ -325,9 +370,16 @@ class MemListener(AsyncListener[AsyncStreamTransport]):
         }
 
     async def serve(self, handler, task_group=None):
+        async def conn(t: Any) -> None:
+            OBJ.set(t.obj)          # (the connection's task: everything created below belongs to that object)
+            await handler(t)
+
         async with self._backend.create_task_group() as tg:
             for t in self._transports:
-                tg.start_soon(handler, t)
+                if getattr(t, "obj", None) is None:
+                    tg.start_soon(handler, t)
+                else:
+                    tg.start_soon(conn, t)
                 await asyncio.sleep(0)
             await self._backend.sleep_forever()
         raise AssertionError
@@ -474,3 +526,54 @@ class HBackend(AsyncIOBackend):
 
     async def create_tcp_listeners(self, host, port, backlog, *, reuse_port=False):
         return [MemListener(self, self.listener_transports)]
+
+
+class _PerObject:
+    def __init__(self, trace: Trace, lock_kind: str) -> None:
+        self.trace = trace
+        self.lock_kind = lock_kind
+        self.transports: list[MemTransport] = []
+        self.listener_transports: list[MemTransport] = []
+        self.fair_locks: list[Any] = []
+        self.lock_names: list[str] = []
+        self.connect_pause = 0
+
+
+_ROUTED = ("trace", "lock_kind", "transports", "listener_transports", "fair_locks", "lock_names", "connect_pause")
+
+
+class SharedHBackend(HBackend):
+    """ONE backend object used by every library object of a loop (what an application does).  The harness-side
+    bookkeeping of HBackend is kept per object: the attributes listed in `_ROUTED` are looked up in the record of the
+    object on whose behalf the current task runs (context variable OBJ), so the per-object session code and the
+    factories of HBackend are used as they are."""
+
+    def __init__(self) -> None:
+        AsyncIOBackend.__init__(self)
+        object.__setattr__(self, "_per", {})
+
+    def register(self, trace: Trace, lock_kind: str, obj: Any = None) -> None:
+        self._per[OBJ.get() if obj is None else obj] = _PerObject(trace, lock_kind)
+
+    def record(self, obj: Any) -> _PerObject:
+        return self._per[obj]
+
+    def __getattr__(self, name: str) -> Any:         # only called for names not found the normal way
+        if name in _ROUTED:
+            return getattr(self._per[OBJ.get()], name)
+        raise AttributeError(name)
+
+    def __setattr__(self, name: str, value: Any) -> None:
+        if name in _ROUTED:
+            setattr(self._per[OBJ.get()], name, value)
+        else:
+            object.__setattr__(self, name, value)
+
+
+def make_backend(trace: Trace, *, lock_kind: str = "fair") -> HBackend:
+    """the backend of one session: a fresh HBackend, or the loop's shared one (SHARED) with a record for this object"""
+    shared = SHARED.get()
+    if shared is None:
+        return HBackend(trace, lock_kind=lock_kind)
+    shared.register(trace, lock_kind)
+    return shared
